@@ -6,13 +6,13 @@
   under its parent until it has stopped (so a later stop() still reaches it); MainThread.stop() returns
   only after every child of the main thread — hence, by C10, every registered descendant — has stopped,
   and reports failures after having joined all.
-  `C11_stop_reaches_partial`: the statement "when stop(p) returns, please_stop is true for every
-  descendant registered under p when it was called" is proved here for p itself and its direct
-  children at the moment they are visited; the transitive closure over a tree that changes while
-  stop() walks it is checked on the implementation by the scheduler-driven monitor (harness/m5_threads.py)
-  and is not yet a theorem.
+  `C11_stop_reaches_every_descendant` / `C11_stop_returned`: when stop(p) returns, every thread that was p or a
+  registered descendant of p when the call started has please_stop set or has already stopped — for every
+  tree, and for every interleaving with threads that end, are joined and unregistered, or register new
+  children while stop() walks (Proofs/TreeStop.lean: the walk keeps every target covered).
 -/
 import MoThreads.Props.C12
+import MoThreads.Proofs.TreeStop
 namespace MoThreads.ThreadTree
 open MoThreads
 
@@ -75,5 +75,67 @@ theorem C11_main_stop_waits_for_all {s : State} (h : sys.Reach s) (cs raised : L
     · exact h1
     · simp [tillOn] at h1
   exact ⟨hst, fun hd => C10_descendants_first h c d hst hd⟩
+
+/-- **Closure of stop().**  Thread `t` calls `stop(p)` in state `s0`; `s1` is any later state (any
+interleaving of steps of any threads, API calls and timeouts in between).  Then either the walk is
+still under way, or every thread that was `p` or a registered descendant of `p` (through any number of
+generations, `Desc` over the ghost registration lists) when the call started has been asked to stop
+or has already stopped — even though the tree keeps changing while stop() walks it (children being
+joined and unregistered, threads ending, new threads registering). -/
+theorem C11_stop_reaches_every_descendant {s0 s1 : State} {t p : Nat} (h0 : sys.Reach s0)
+    (hph : s0.phase t = .running) (hc : s0.call t = .stopping [.visit p]) (g : Seg s0 s1) :
+    (∃ a work, s1.call t = .stopping (a :: work)) ∨
+    (∀ d, d = p ∨ Desc s0 p d → s1.pstop d = true ∨ s1.stopped d = true) := by
+  rcases walk_seg h0 hph hc g with h | ⟨_, work, hcl, hcov⟩
+  · exact Or.inr h
+  · cases work with
+    | cons a w => exact Or.inl ⟨a, w, hcl⟩
+    | nil =>
+      refine Or.inr (fun d hd => ?_)
+      rcases hcov d hd with h1 | h1 | h1 | h1 | ⟨u, hu, _⟩
+      · exact Or.inl h1
+      · exact Or.inr h1
+      · cases h1
+      · cases h1
+      · cases hu
+
+/-- … in particular at the moment stop() returns (empty work list) and at any time after it -/
+theorem C11_stop_returned {s0 s1 : State} {t p : Nat} (h0 : sys.Reach s0)
+    (hph : s0.phase t = .running) (hc : s0.call t = .stopping [.visit p]) (g : Seg s0 s1)
+    (hret : s1.call t = .stopping [] ∨ ∃ r, s1.call t = .idle r) (d : Nat) (hd : d = p ∨ Desc s0 p d) :
+    s1.pstop d = true ∨ s1.stopped d = true := by
+  rcases C11_stop_reaches_every_descendant h0 hph hc g with ⟨a, w, hw⟩ | h
+  · rcases hret with hr | ⟨r, hr⟩ <;> (rw [hr] at hw; cases hw)
+  · exact h d hd
+
+/-- a thread that is still running (not stopped) when stop() has returned has `please_stop` set -/
+theorem C11_running_descendant_is_signalled {s0 s1 : State} {t p : Nat} (h0 : sys.Reach s0)
+    (hph : s0.phase t = .running) (hc : s0.call t = .stopping [.visit p]) (g : Seg s0 s1)
+    (hret : s1.call t = .stopping []) (d : Nat) (hd : d = p ∨ Desc s0 p d) (hrun : s1.stopped d = false) :
+    s1.pstop d = true := by
+  rcases C11_stop_returned h0 hph hc g (Or.inl hret) d hd with h | h
+  · exact h
+  · rw [hrun] at h; cases h
+
+/-! non-vacuity: main spawns t1, t1 spawns t2, t2 spawns t3; main calls stop(t1) while all run -/
+def demo11 : Option (State × State) := do
+  let s ← call init 0 .spawn
+  let s := settle 10 s 0
+  let s := settle 10 s 1
+  let s ← call s 1 .spawn
+  let s := settle 10 s 1
+  let s := settle 10 s 2
+  let s ← call s 2 .spawn
+  let s := settle 10 s 2
+  let s := settle 10 s 3
+  let s0 ← call s 0 (.stop 1)
+  let s1 := settle 6 s0 0          -- visit 1, visit 2, visit 3, fire 3, fire 2, fire 1
+  pure (s0, s1)
+
+example : (demo11.map fun q => (q.1.call 0, q.1.everChild 1, q.1.everChild 2, q.2.call 0)) = some (.stopping [.visit 1], [2], [3], .stopping []) := by
+  decide
+example : (demo11.map fun q => (q.2.pstop 1, q.2.pstop 2, q.2.pstop 3, q.2.stopped 3)) = some (true, true, true, false) := by
+  decide
+
 
 end MoThreads.ThreadTree
